@@ -140,6 +140,29 @@ theorem expiry_exact (ops : PriceOps P) (m : Market P) (fund : Option P) :
     simp only [Market.tick, Book.keepAt, List.mem_filter, Bool.not_eq_eq_eq_not, Bool.not_true]
     rw [← hex o]; simp
 
+/-- The same when the clock is moved by several steps at once (`_set_time`): every order whose
+life ended before the new time leaves the book, with one expiry record each, however far the
+clock jumps. -/
+theorem jump_expiry_exact (ops : PriceOps P) (m : Market P) (k : Nat) (fund : Option P) :
+    let m' := (m.setTime ops k fund).1
+    (∀ o, o ∈ m'.buys ↔ (o ∈ m.buys ∧ ¬ ∃ t, o.ttl = some t ∧ o.placedAt + t < m.time + k)) ∧
+    (∀ o, o ∈ m'.sells ↔ (o ∈ m.sells ∧ ¬ ∃ t, o.ttl = some t ∧ o.placedAt + t < m.time + k)) ∧
+    (m.setTime ops k fund).2 =
+      (m.buys.filter (fun o => o.expired (m.time + k))).map (mkExpiry (m.time + k)) ++
+      (m.sells.filter (fun o => o.expired (m.time + k))).map (mkExpiry (m.time + k)) := by
+  have hex : ∀ o : Order P, o.expired (m.time + k) = true ↔
+      ∃ t, o.ttl = some t ∧ o.placedAt + t < m.time + k := by
+    intro o
+    unfold Order.expired
+    rcases o.ttl with _ | t <;> simp
+  refine ⟨?_, ?_, rfl⟩
+  · intro o
+    simp only [Market.setTime, Book.keepAt, List.mem_filter, Bool.not_eq_eq_eq_not, Bool.not_true]
+    rw [← hex o]; simp
+  · intro o
+    simp only [Market.setTime, Book.keepAt, List.mem_filter, Bool.not_eq_eq_eq_not, Bool.not_true]
+    rw [← hex o]; simp
+
 /-- An order object is accepted at most once and only by the market it names: a submission that
 names another market, or that already carries a stamp (acceptance stamps the object with
 `placed_at` and `order_id`), is refused and changes nothing; a fresh one is accepted, stamped with
